@@ -452,9 +452,10 @@ class OrdinalCategoricalDissimilarity(PrecomputedCategoricalDissimilarity):
         indexes = np.argsort(labels)
         matrix = np.zeros((len(labels), len(labels)), dtype=np.float32)
         max_val = 1.0
-        for i in indexes:
-            for j in indexes:
-                matrix[i, j] = abs(p[i] - p[j])
+        # the matrix is indexed by the categories in alphabetical order
+        for i, label_i in enumerate(indexes):
+            for j, label_j in enumerate(indexes):
+                matrix[i, j] = abs(p[label_i] - p[label_j])
                 max_val = max(matrix[i, j], max_val)
         matrix /= max_val
 
